@@ -1297,6 +1297,13 @@ def run_c10(chk):
                       "document (percent-encoded): %s\nreplay: printf 'nsinfo\\t%s\\n' | harness/target/debug/xmlrs-driver\n"
                       % (x, y, lib.enc(t), lib.enc(t).replace("%", "%%")))
         mfail.append((t, "nsinfo", "information set namespace view", x + " expected " + y))
+    # reach of the renaming THEOREM on the document side (Thm/C10 `eval_ren`): how many of the expressions of this run does it
+    # speak about (`safeE`)?  The expression-side theorem (`eval_rename_expression`) speaks about all of them.
+    all_e = sorted({e for _, _, es in qs for e in es})
+    th10 = lib.run_lines(lib.model_driver(), [lib.req("thm10", e) for e in all_e], timeout=300)
+    chk.cov["theorem_reach"] = {"expressions": len(all_e), "parsed": sum(1 for r in th10 if r.startswith("safe=")),
+                                "eval_ren_applies": sum(1 for r in th10 if r == "safe=1"),
+                                "outside": [e for e, r in zip(all_e, th10) if r == "safe=0"][:8]}
     chk.cov["document_features"] = dict(sorted(dfeats.items()))
     chk.cov["disagreements_checked"] = len(tdis)
     chk.cov["rule"] = ("%d generated documents with random declaration layouts (shadowing, re-declaration, default namespace, xmlns=\"\", "
